@@ -63,6 +63,9 @@ def resStep (st : ContState) (t : Tokens) (impl : Option String) : ContState × 
         (if kept.length ≤ cap then [] else ["C05 reservoir: holds more than its capacity"]) ++
         (if cap == rs.r.cap then [] else ["C05 reservoir: capacity differs from the negotiated one"])
         ++ (if seen == rs.r.seen then [] else ["C05 reservoir: events_seen differs from the number offered"])
+        -- conservation: below the negotiated capacity nothing that was offered (directly or by a hand-back) is dropped
+        ++ (if kept.length ≥ min rs.r.cap rs.offered.length then [] else
+              [s!"C01 reservoir: {rs.offered.length} events were offered to a reservoir of capacity {rs.r.cap}, but only {kept.length} are held"])
     (st, { model := dumpRes rs.r, specFails := fails })
   match cmd with
   | "new" => finish st s { r := Res.new (tokNat t 3), offered := [] }
